@@ -41,7 +41,8 @@ META = {
                   "evaluate()/GridFunction glue only searched.",
     "design_ref": "DESIGN.md §7 C09",
 }
-MANIFOLD_EXPECTED = {"octahedron", "screen2x2", "two-components", "cube12", "torus3x3"}
+MANIFOLD_EXPECTED = {  # fan, two-tets-glued, t-junction and the soups are non-manifold on purpose
+    "octahedron", "screen2x2", "two-components", "cube12", "torus3x3"}
 
 
 def regen(ctx):
@@ -200,6 +201,10 @@ def correspond(ctx):
     if groups and groups[0]["cases"]:
         c = groups[0]["cases"][len(groups[0]["cases"]) // 2]
         ctx.corr["samples"] = [{k: c[k] for k in ("kind", "se", "incl", "trunc", "l2g", "mult", "supp", "ndofs", "colour")}]
+    # the disagreeing cases are handed to the search, which evaluates the property predicates on exactly these inputs
+    ctx.bad_cases = [dict(b["case"], grid=b["group"],
+                          grid_arrays={"vertices": b["tables"]["vertices"], "elements": b["tables"]["elems"],
+                                       "domain_indices": b["tables"]["dom"]}) for b in bad[:60]]
     for b in bad[:25]:
         ctx.corr["disagreements"] += 1
         ctx.problem("correspondence", "model and implementation disagree on %s of %s on %s" % (
@@ -218,10 +223,20 @@ def search(ctx, strength):
             res = job[1].get("res")
     if res is None:
         res = ctx.run_impl("c09_impl.py", {"strength": strength, "parts": ["search"]}, timeout=3000)
+    bad_cases = getattr(ctx, "bad_cases", None)
+    if bad_cases:
+        # first the inputs on which model and implementation disagree: a failing input found here is the replay
+        rc = ctx.run_impl("c09_impl.py", {"parts": ["cases"], "cases": bad_cases}, timeout=1500)
+        if rc is not None and "cases" in rc:
+            ctx.search_info["evaluations"] += rc["cases"]["evals"]
+            ctx.search_info["notes"].append({"disagreeing_cases_evaluated": len(bad_cases),
+                                             "failures_on_them": len(rc["cases"]["failures"])})
+            for f in rc["cases"]["failures"]:
+                ctx.failure(f["signature"], f["what"] + " [input on which model and implementation disagree]", f["data"])
     if res is None or "search" not in res:
         return
     s = res["search"]
-    ctx.search_info["evaluations"] = s["evals"]
+    ctx.search_info["evaluations"] += s["evals"]
     ctx.search_info["notes"].append({"worst": s["worst"]})
     for f in s["failures"]:
         ctx.failure(f["signature"], f["what"], f["data"])
@@ -229,4 +244,12 @@ def search(ctx, strength):
 
 def replay(ctx):
     regen(ctx)
+    inp = (getattr(ctx, "replay", None) or {}).get("input") or {}
+    if isinstance(inp, dict) and "grid_arrays" in inp:
+        rc = ctx.run_impl("c09_impl.py", {"parts": ["cases"], "cases": [inp]}, timeout=1500)
+        if rc is not None and "cases" in rc:
+            ctx.search_info["evaluations"] = rc["cases"]["evals"]
+            for f in rc["cases"]["failures"]:
+                ctx.failure(f["signature"], f["what"], f["data"])
+        return
     search(ctx, "thorough")
